@@ -2265,4 +2265,121 @@ theorem scan_fail_inv (cfg : Cfg) (cost : Nat → Nat) (bad : Nat → Bool) (msg
           · cases h
 
 
+
+/-! ### the proposed repair of F5: sanitised text contains no image tag (round 7) -/
+
+theorem sanitizeGo_cons (b : UInt8) (bs : Bytes) :
+    sanitizeGo (b :: bs) 0 =
+      if bImgDash.isPrefixOf (b :: bs) then [91, 105, 109, 103, 32, 45] ++ sanitizeGo bs 4 else b :: sanitizeGo bs 0 := by
+  simp only [sanitizeGo]
+
+/-- a byte other than `[` is copied -/
+theorem sanitizeGo_copy (b : UInt8) (bs : Bytes) (hb : b ≠ 91) : sanitizeGo (b :: bs) 0 = b :: sanitizeGo bs 0 := by
+  rw [sanitizeGo_cons]
+  have : bImgDash.isPrefixOf (b :: bs) = false := by
+    simp [bImgDash, List.isPrefixOf]
+    intro h; exact absurd h.symm hb
+  simp [this]
+
+/-- the first output byte is the first input byte -/
+theorem sanitizeGo_first (b : UInt8) (bs : Bytes) : ∃ t, sanitizeGo (b :: bs) 0 = b :: t := by
+  rw [sanitizeGo_cons]
+  split
+  · rename_i h
+    have hb : b = 91 := by
+      simp [bImgDash, List.isPrefixOf] at h
+      exact h.1.symm
+    subst hb
+    exact ⟨_, rfl⟩
+  · exact ⟨_, rfl⟩
+
+/-- if the output spells `x :: w` with `x ≠ '['`, the input starts with `x` and the rest of the output is the output of the rest -/
+theorem sanitize_step (x : UInt8) (hx : x ≠ 91) (w rest : Bytes)
+    (h : (x :: w).isPrefixOf (sanitizeGo rest 0) = true) :
+    ∃ rest', rest = x :: rest' ∧ w.isPrefixOf (sanitizeGo rest' 0) = true := by
+  cases rest with
+  | nil => simp [sanitizeGo, List.isPrefixOf] at h
+  | cons r rest' =>
+    obtain ⟨t, ht⟩ := sanitizeGo_first r rest'
+    have hr : x = r := by
+      rw [ht] at h
+      simp only [List.isPrefixOf, Bool.and_eq_true, beq_iff_eq] at h
+      exact h.1
+    subst hr
+    refine ⟨rest', rfl, ?_⟩
+    rw [sanitizeGo_copy x rest' hx] at h
+    simp only [List.isPrefixOf, Bool.and_eq_true, beq_iff_eq] at h
+    exact h.2
+
+/-- **after the repair no text spells the beginning of an image tag**: the output of the sanitiser never has
+    `[img-` at its start — neither from a replaced occurrence (`[img -`) nor from copied bytes -/
+theorem sanitize_no_dash_head (s : Bytes) : bImgDash.isPrefixOf (sanitizeGo s 0) = false := by
+  cases s with
+  | nil => rfl
+  | cons b bs =>
+    rw [sanitizeGo_cons]
+    cases hp : bImgDash.isPrefixOf (b :: bs) with
+    | true => simp [bImgDash, List.isPrefixOf]
+    | false =>
+      simp only [Bool.false_eq_true, if_false]
+      cases hq : bImgDash.isPrefixOf (b :: sanitizeGo bs 0) with
+      | false => rfl
+      | true =>
+        exfalso
+        have hb : b = 91 := by
+          simp [bImgDash, List.isPrefixOf] at hq
+          exact hq.1.symm
+        subst hb
+        have h4 : ([105, 109, 103, 45] : Bytes).isPrefixOf (sanitizeGo bs 0) = true := by
+          simpa [bImgDash, List.isPrefixOf] using hq
+        obtain ⟨r1, e1, h3⟩ := sanitize_step 105 (by decide) _ bs h4
+        obtain ⟨r2, e2, h2⟩ := sanitize_step 109 (by decide) _ r1 h3
+        obtain ⟨r3, e3, h1⟩ := sanitize_step 103 (by decide) _ r2 h2
+        obtain ⟨r4, e4, _⟩ := sanitize_step 45 (by decide) _ r3 h1
+        subst e1; subst e2; subst e3; subst e4
+        simp [bImgDash, List.isPrefixOf] at hp
+
+theorem sanitizeGo_skip : ∀ (bs : Bytes) (k : Nat), sanitizeGo bs k = sanitizeGo (bs.drop k) 0 := by
+  intro bs
+  induction bs with
+  | nil => intro k; cases k <;> simp [sanitizeGo]
+  | cons b bs ih =>
+    intro k
+    cases k with
+    | zero => rfl
+    | succ k => simp only [sanitizeGo, List.drop_succ_cons]; exact ih k
+
+/-- **Proposed repair of F5: sanitised text contains no image tag the runner could read** — for every text -/
+theorem sanitized_text_has_no_tag : ∀ (n : Nat) (s : Bytes), s.length ≤ n → scanTags (sanitizeGo s 0) 0 = [] := by
+  intro n
+  induction n with
+  | zero =>
+    intro s h
+    have : s = [] := by cases s <;> simp_all
+    subst this; rfl
+  | succ n ih =>
+    intro s h
+    cases s with
+    | nil => rfl
+    | cons b bs =>
+      have hlen : bs.length ≤ n := by simp at h; omega
+      cases hp : bImgDash.isPrefixOf (b :: bs) with
+      | true =>
+        rw [sanitizeGo_cons, hp, if_pos rfl, sanitizeGo_skip]
+        rw [scanTags_safe [91, 105, 109, 103, 32, 45] _ (by decide)]
+        exact ih _ (by simp; omega)
+      | false =>
+        have hno := sanitize_no_dash_head (b :: bs)
+        rw [sanitizeGo_cons, hp] at hno ⊢
+        simp only [Bool.false_eq_true, if_false] at hno ⊢
+        have hm : matchTag (b :: sanitizeGo bs 0) = none := by
+          unfold matchTag
+          simp [hno]
+        simp only [scanTags, hm]
+        exact ih bs hlen
+
+theorem sanitizeBytes_no_tag (s : Bytes) : scanTags (sanitizeBytes s) 0 = [] :=
+  sanitized_text_has_no_tag s.length s (Nat.le_refl _)
+
+
 end OllamaVerif.Prompt
